@@ -167,6 +167,8 @@ func (a *pwaligner) fillMatrix_SW() (err error) {
 	var indexseq1, indexseq2 []int // convert characters to subst matrix positions
 
 	a.initMatrix(a.seq1.Length(), a.seq2.Length())
+	// the maximum belongs to this matrix only (Alignment() may be called again, e.g. after SetScore)
+	a.maxscore, a.maxi, a.maxj = .0, 0, 0
 
 	// We convert characters to indices in subst matrices
 	// once for all
